@@ -299,14 +299,43 @@ def r4_required_reaches_graph(chk: Check):
     if len(loops) == 1:
         calls = [c for s in loops[0].ast.body for c in walk_local(s) if isinstance(c, ast.Call) and dotted(c.func) == helper.node.name]
         chk.require(len(calls) == 1, chk.fkey(f, "walks each value"), "every argument value must be walked for nested configurations", loc)
-        rs = [n for n in g.live if n.kind == "stmt" and isinstance(n.ast, ast.Raise) and g.dominates(loops[0], n)]
-        ok = False
-        for r_ in rs:
-            gs = sorted((src(t.ast), pol) for t, pol in g.guards(r_) if t.kind == "test" and src(t.ast) != "self._validated")
-            if gs == sorted([("value is None", True), ("argument.required", True), ("argument.generator", False)]):
-                ok = True
-        chk.require(ok, chk.fkey(f, "missing required raises"), "a required argument without value (and without generator) must raise", loc)
-        chk.require(not any(isinstance(x, (ast.Continue, ast.Break)) for x in ast.walk(loops[0].ast)), chk.fkey(f, "no skipped argument"), "validate skips some arguments", loc)
+        # per-argument decision table: a value is walked; a missing required value without generator raises; nothing else leaves the iteration early
+        lp = loops[0]
+        start = [m for m, l in lp.succ if l == "loop"][0]
+        after = [m for m, l in lp.succ if l == "done"]
+        hname = helper.node.name
+
+        def classify(n):
+            t = src(n.ast)
+            return {"value is None": ("none", True), "argument.required": ("req", True), "argument.generator": ("gen", True)}.get(t)
+
+        def events(n):
+            return ["walk" for c in n.calls() if dotted(c.func) == hname]
+
+        def stop(n):
+            if n is lp:
+                return "next"
+            if n in after:
+                return "left the loop"
+            if n is g.raise_:
+                return "raise"
+            if n is g.exit:
+                return "return"
+            return None
+
+        import itertools
+
+        bad = []
+        for none, req, gen in itertools.product([True, False], repeat=3):
+            outs = walk_table(g, start, classify, {"none": none, "req": req, "gen": gen}, events, stop)
+            want_end = "raise" if none and req and not gen else "next"
+            want_walk = not none
+            for o in outs:
+                unk = [u[0] for u in o.unknown if u[2] is None]
+                if o.end != want_end or ("walk" in o.events) != want_walk or unk:
+                    bad.append(f"value {'missing' if none else 'given'}, required={req}, generator={gen}: {'walked' if 'walk' in o.events else 'not walked'}, {o.end}{' depending on ' + str(unk) if unk else ''}")
+        chk.require(not bad, chk.fkey(f, "per-argument decision"), "every argument must be examined: a given value is walked for nested configurations, a missing required value without generator raises, "
+                    f"and no other argument ends the loop; found {bad[:3]}", loc)
     for attr in ("self.pre_tasks", "self.init_tasks"):
         lp = [n for n in g.live if n.kind == "for" and src(n.ast.iter) == attr]
         ok = len(lp) == 1 and any(isinstance(c, ast.Call) and src(c.func).endswith(".__xpm__.validate") for s in lp[0].ast.body for c in walk_local(s))
